@@ -306,6 +306,10 @@ def sites_in(fn, qual, cls, rel):
                     add("del", t, n)
         elif isinstance(n, ast.Call) and isinstance(n.func, ast.Attribute) and n.func.attr in MUTATORS:
             add("call:" + n.func.attr, n.func.value, n)
+        elif isinstance(n, ast.Call) and isinstance(n.func, ast.Name) and n.func.id in ("setattr", "delattr") and n.args:
+            add("call:" + n.func.id, n.args[0], n)        # setattr(obj, name, value) writes to obj
+        elif isinstance(n, ast.Call) and isinstance(n.func, ast.Attribute) and n.func.attr in ("__setitem__", "__setattr__", "__delitem__", "__delattr__"):
+            add("call:" + n.func.attr, n.args[0] if isinstance(n.func.value, ast.Name) and n.func.value.id in ("dict", "list", "object") and n.args else n.func.value, n)
     return out
 
 
